@@ -203,6 +203,8 @@ def run_indexes(ctx, n):
             hist.append(("set", (), rootent))
             final[()] = rootent
 
+        other_index = rng.random() < 0.5
+
         def fs():
             p = os.path.join(root, f"i{i}.sqlite")
             idx = DataIndex.open(p)
@@ -215,6 +217,17 @@ def run_indexes(ctx, n):
                     idx.commit()
             idx.commit()
             idx.close()
+            if other_index:
+                # another SQLite-backed index of the same process uses the very same key tuples for different entries
+                from dvc_data.hashfile.hash_info import HashInfo as _HI
+                from dvc_data.hashfile.meta import Meta as _M
+
+                o = DataIndex.open(os.path.join(root, f"i{i}-other.sqlite"))
+                for k in final:
+                    o[k] = DataIndexEntry(key=k, meta=_M(size=424242, isexec=True), hash_info=_HI("md5", "f" * 32), loaded=False)
+                o.commit()
+                list(o.iteritems())
+                o.close()
             idx2 = DataIndex.open(p)
             try:
                 return index_items(idx2)
@@ -284,7 +297,7 @@ def run(ctx):
     ctx.rule = (
         "entries with every combination of optional fields (None / default / falsy strings / zero sizes / '.dir' hashes / "
         "loaded in {None,True,False}), non-ASCII and odd key parts; indexes of 1-6 entries through write_json/read_json, "
-        "write_db/read_db and the SQLite-backed index with set/overwrite-one-field/delete histories, commit, close, reopen "
+        "write_db/read_db and the SQLite-backed index with set/overwrite-one-field/delete histories, commit, close, (often: another SQLite-backed index written under the same keys), reopen "
         "(incl. the root key); listings written with metadata for md5 / md5-dos2unix / etag / checksum. "
         "non-trivial = entry has meta or hash / index has >= 2 entries; distinct = sha256 of the canonical case"
     )
